@@ -170,7 +170,7 @@ def cases(draw):
         if isinstance(it, dict):
             for o in it[name]:
                 assume(lit_ok(str(o)))
-    return {"mut": mut, "listing": L, "pattern": pattern}
+    return {"mut": mut, "listing": L, "pattern": pattern, "false_as_absent": draw(st.booleans())}
 
 
 def strategy(tier):
@@ -213,7 +213,11 @@ def evaluate(case):
         spans = ref.spans(pattern)
         exp = bool(spans)
         verdicts.append(exp)
-        doc = jasm_io.make_doc(pattern, mn_full, op_full)
+        if case.get("false_as_absent"):
+            # a flag that is false may equally be left out of the config (its default)
+            doc = jasm_io.make_doc(pattern, mn_full or None, op_full or None)
+        else:
+            doc = jasm_io.make_doc(pattern, mn_full, op_full)
         flags = {"mnemonics-full-match": mn_full, "operands-full-match": op_full}
         r_bool = jasm_io.match(doc, text, mode="bool", search="first")
         r_list = jasm_io.match(doc, text, mode="list", search="all")
